@@ -109,7 +109,10 @@ def run_impl(c):
                 full = n if not (cfg["drop"] and cfg["bs"]) else n - n % cfg["bs"]
                 if len(fa) != full or len(set(fa)) != len(fa) or any(not 0 <= x < n for x in fa):
                     fails.append(f"epoch {e}: shuffled epoch is not a permutation: {a}")
-                if [len(x) for x in a] != [len(x) for x in b]:
+                sa, sb = [len(x) for x in a], [len(x) for x in b]
+                if not (c["in_order"] or cfg["W"] == 0):
+                    sa, sb = sorted(sa), sorted(sb)     # in_order=False: the short last batch may arrive before a full one
+                if sa != sb:
                     fails.append(f"epoch {e}: batch shapes differ from torch")
             elif c["in_order"] or cfg["W"] == 0:
                 if a != b:
